@@ -222,10 +222,12 @@ impl BinArchive {
         let data_size = cursor.read_u32(endian)?;
         let pointer_count = cursor.read_u32(endian)?;
         let label_count = cursor.read_u32(endian)?;
-        let text_start = (data_size + (pointer_count * 4) + (label_count * 8)) as usize;
-        if text_start + 0x20 > bytes.len() {
+        // Sum in 64 bits: the section sizes come from the file and their 32-bit sum can wrap.
+        let text_start = data_size as u64 + (pointer_count as u64 * 4) + (label_count as u64 * 8);
+        if text_start + 0x20 > bytes.len() as u64 {
             return Err(ArchiveError::ArchiveTooSmall);
         }
+        let text_start = text_start as usize;
 
         let mut archive = BinArchive::new(endian);
         cursor.seek(SeekFrom::Start(0x20))?;
